@@ -5,7 +5,7 @@
    Scope notes: numbers are exact rationals; the CSV on disk is a file-system observation audited on every
    captured round, not modelled. *)
 From Coq Require Import QArith Lqa Lia List String Bool.
-From Allfed Require Import Base.StrUtil Gen.UnitTables Model.Units Model.LP Model.Report Proofs.Units Proofs.Report.
+From Allfed Require Import Base.StrUtil Gen.UnitTables Model.Units Model.LP Model.Report Proofs.Units Proofs.LPChar Proofs.Report.
 Import ListNotations.
 Open Scope Q_scope.
 
@@ -130,6 +130,25 @@ Print Assumptions c04_rounded_breakdown.
 Theorem c04_round_bound : forall d x, - ((1 # 2) / pow10 d) <= round_dec d x - x <= (1 # 2) / pow10 d.
 Proof. exact round_dec_bound. Qed.
 Print Assumptions c04_round_bound.
+
+(* (7) hand-off link used by the three-round theorem of C03: the series the interpreter hands to the next round
+   (feed_sum_kcals_equivalent / biofuels_sum_kcals_equivalent = cell sugar + SCP + seaweed + outdoor crops + stored food,
+   each one variable values -> billion people fed -> percent -> kcals per person per day), converted back with
+   in_units_bil_kcals_thou_tons_thou_tons_per_month, IS the LP's monthly feed / biofuel sum - for every input and
+   EVERY assignment (feasibility is not needed), every month *)
+Theorem c04_feed_sum_link : forall i c a, lp_settings_ok i c -> forall m, (m < NM i)%nat ->
+  nthq (back_to_bk c (feed_sum_ke (fb_of i c a))) m == feed_sum i a m /\
+  nthq (back_to_bk c (biofuels_sum_ke (fb_of i c a))) m == biofuel_sum i a m.
+Proof. exact feed_sum_link. Qed.
+Print Assumptions c04_feed_sum_link.
+
+(* ... hence in a human round (rounds 1 and 3) they are the round's feed / biofuel charge *)
+Theorem c04_feed_sum_link_charge : forall i c a, lp_settings_ok i c -> Feasible i ToHumans a -> has_nonhuman i = true ->
+  forall m, (m < NM i)%nat ->
+  nthq (back_to_bk c (feed_sum_ke (fb_of i c a))) m == at_ (feed_charge i) m /\
+  nthq (back_to_bk c (biofuels_sum_ke (fb_of i c a))) m == at_ (biofuel_charge i) m.
+Proof. exact feed_sum_link_charge. Qed.
+Print Assumptions c04_feed_sum_link_charge.
 
 (* ------------------------------------------------------------------ non-vacuity *)
 
